@@ -402,7 +402,7 @@ pub fn run(args: &Args) -> Report {
         }
     }
     // --- approx stream: all 11 data types, magnitudes 1e-6 .. 1e6, both signs
-    let napprox = if args.thorough { 20000 } else { 1500 };
+    let napprox = if args.thorough { 80000 } else { 1500 };
     for _ in 0..napprox {
         let carrier = rng.below(5);
         let dt = rng.below(11);
@@ -443,6 +443,6 @@ pub fn run(args: &Args) -> Report {
     // whole modules: which data type and conversion each carrier is tested against (record layout of the deposit's name,
     // FNC_VALUES / AXIS_PTS_X..5 by position, first item of a duplicated name) - ordered report list with exact limits
     // against the structural model of checker.rs (Model/Checker.lean, Props/C12Struct.lean)
-    crate::c11full::run_family(&mut rep, &mut rng, if args.thorough { 4000 } else { 400 });
+    crate::c11full::run_family(&mut rep, &mut rng, if args.thorough { 20000 } else { 400 });
     rep
 }
